@@ -14,7 +14,9 @@
    otherwise a harness metatype holding that number (cloned by mpt_node_clone,
    released by mpt_node_destroy; the metatype with number 3 refuses to be cloned).
    Further name codes: 4 and 6 are long texts, 5 a binary identifier (see
-   [name_alloc]); all that matters of a name is equality.  malloc failure is
+   [name_alloc]), codes above 100 texts of a given length (100 + n: n characters);
+   all that matters of a name is equality and, for a clone, whether the copy of
+   the identifier needs an allocation of its own.  malloc failure is
    modelled for the clone functions (an oracle says which allocation fails). *)
 From Coq Require Import List Arith ZArith Bool.
 Import ListNotations.
@@ -284,7 +286,26 @@ Definition node_ins (byname : bool) (h : heap) (parent : nat) (pos : Z) (x : ptr
 Definition tick (k : nat) : nat * bool :=
   match k with 0 => (0, false) | 1 => (0, true) | S k' => (k', false) end.
 Definition unclonable (v : nat) : bool := v =? 3.
-Definition name_alloc (nm : nat) : bool := nm =? 4.
+(* Name codes above 100: code 100 + n is a text of n characters (stored length
+   n + 1 with its terminator).  Whether mpt_identifier_copy has to malloc for the
+   copy is decided by the sizes themselves: node_new.c makes a node of 64 bytes,
+   or, for 64 < len + 40 <= 256, of the first of 128, 256 that holds len + 40
+   bytes; 40 of them are links and value, 4 the identifier header, the rest is
+   ident._max; identifier.c allocates when _len > _max (so _len = _max — names of
+   19, 83, 211 characters — is the last length kept inside the node). *)
+Fixpoint node_grow (fuel size len : nat) : nat :=
+  match fuel with
+  | 0 => size
+  | S f => if size <? len then node_grow f (2 * size) len else size
+  end.
+Definition node_room (len : nat) : nat :=           (* ident._max after mpt_node_new(len) *)
+  let need := len + 40 in
+  let size := if (64 <? need) && (need <=? 256) then node_grow 8 64 need else 64 in
+  size - 40 - 4.
+Definition name_len (nm : nat) : option nat :=      (* ident._len of a text name *)
+  if 100 <? nm then Some (nm - 100 + 1) else None.
+Definition name_alloc (nm : nat) : bool :=
+  (nm =? 4) || match name_len nm with Some l => node_room l <? l | None => false end.
 
 Definition node_clone (h : heap) (x : ptr) (k : nat) : R (heap * ptr * nat) :=
   match x with
